@@ -35,7 +35,7 @@ func c06r1(c *Ctx, id string) {
 	n := 0
 	for _, name := range sortedKeys(oi.handlers) {
 		h := oi.handlers[name]
-		offs := allocsOf(h, off)
+		offs := w.litsIn(h, off)
 		if len(offs) == 0 {
 			continue
 		}
@@ -47,51 +47,64 @@ func c06r1(c *Ctx, id string) {
 		}
 		n++
 		send := sends[0]
-		tab, _ := allocTable(offs[0])
-		seq := tab["SeqNo"]
+		lit := offs[0]
+		seq := lit.Table["SeqNo"]
 		construct := "handler:" + name
-		ownSnap := asAlloc(tab["SnapshotMarker"])
-		if ownSnap != nil && types.Identical(types.Unalias(ownSnap.Type().(*types.Pointer).Elem()), sm) {
-			// builds its own snapshot (SeqNoAdvanced): [s,s], SeqNo s, and installs it as current
-			st, _ := allocTable(ownSnap)
-			s0 := w.Origin(seq)
-			ok := w.Origin(st["StartSeqNo"]) == s0 && w.Origin(st["EndSeqNo"]) == s0 && strings.HasPrefix(s0, "param(")
+		// builds its own snapshot (SeqNoAdvanced): [s,s], SeqNo s, and installs it as current
+		if ss, has := lit.Table["SnapshotMarker.StartSeqNo"]; has {
+			se := lit.Table["SnapshotMarker.EndSeqNo"]
+			ok := ss == seq && se == seq && strings.HasPrefix(seq, "param(")
 			installed := false
 			for _, fs := range w.fieldStores(w.Field("couchbase", oi.typ.Obj().Name(), "currentSnapshot")) {
-				if fs.Fn == h && asAlloc(fs.Store.Val) == ownSnap && dominatesInstr(fs.Store, send) {
-					installed = true
+				if fs.Fn != h || !dominatesInstr(fs.Store, send) {
+					continue
+				}
+				if sl, ok2 := w.litOf(fs.Store.Val); ok2 && sl.Table["StartSeqNo"] == seq && sl.Table["EndSeqNo"] == seq {
+					// the installed marker is the very one the offset carries
+					if lit.Alloc != nil {
+						if t, _ := allocTable(lit.Alloc); asAlloc(t["SnapshotMarker"]) != nil && asAlloc(t["SnapshotMarker"]) == asAlloc(fs.Store.Val) {
+							installed = true
+						}
+					} else {
+						installed = true
+					}
 				}
 			}
-			c.Check(ok && installed, id, construct, offs[0].Pos(), "builds snapshot ["+s0+","+s0+"] and SeqNo "+s0+" from one value and installs it before delivery",
-				fmt.Sprintf("self-built snapshot is not [s,s] with SeqNo s of one value (start %s end %s seq %s installed %v)", w.Origin(st["StartSeqNo"]), w.Origin(st["EndSeqNo"]), s0, installed))
+			_ = sm
+			c.Check(ok && installed, id, construct, lit.Pos, "builds snapshot ["+seq+","+seq+"] and SeqNo "+seq+" from one value and installs it before delivery",
+				fmt.Sprintf("self-built snapshot is not [s,s] with SeqNo s of one value (start %s end %s seq %s installed %v)", ss, se, seq, installed))
 			continue
 		}
 		// membership guard on the same value
-		okGuard := guardedBy(send.Block(), true, func(v ssa.Value) bool {
-			call, ok := v.(*ssa.Call)
-			return ok && call.Common().StaticCallee() == oi.member && len(call.Common().Args) == 2 && w.Origin(call.Common().Args[1]) == w.Origin(seq)
-		})
-		so, vo := w.Origin(tab["SnapshotMarker"]), w.Origin(tab["VbUUID"])
+		memberGuard := func(b *ssa.BasicBlock, needSeq bool) bool {
+			return guardedBy(b, true, func(v ssa.Value) bool {
+				call, ok := v.(*ssa.Call)
+				if !ok || call.Common().StaticCallee() != oi.member || len(call.Common().Args) != 2 {
+					return false
+				}
+				return !needSeq || w.Origin(call.Common().Args[1]) == seq
+			})
+		}
+		okGuard := memberGuard(send.Block(), true)
+		so, vo := lit.Table["SnapshotMarker"], lit.Table["VbUUID"]
 		okSrc := so == "recv.currentSnapshot" && vo == "recv.vbUUID"
-		// the loads happen inside the guarded region
-		okRegion := true
-		for _, f := range []string{"SnapshotMarker", "VbUUID"} {
-			if ld, ok := tab[f].(*ssa.UnOp); ok {
-				if !guardedBy(ld.Block(), true, func(v ssa.Value) bool {
-					call, ok := v.(*ssa.Call)
-					return ok && call.Common().StaticCallee() == oi.member
-				}) {
+		// the observer's fields are read inside the checked region (the literal, or the helper call that builds it, lies in it)
+		okRegion := memberGuard(lit.At.Block(), false)
+		if lit.Alloc != nil {
+			t, _ := allocTable(lit.Alloc)
+			for _, f := range []string{"SnapshotMarker", "VbUUID"} {
+				if ld, ok := t[f].(*ssa.UnOp); ok && !memberGuard(ld.Block(), false) {
 					okRegion = false
 				}
 			}
 		}
 		switch {
 		case !okGuard:
-			c.Fail(id, construct, send.Pos(), "delivery is not dominated by IsInSnapshotMarker(%s)=true — an event outside its announced snapshot would be delivered with a torn offset", w.Origin(seq))
+			c.Fail(id, construct, send.Pos(), "delivery is not dominated by IsInSnapshotMarker(%s)=true — an event outside its announced snapshot would be delivered with a torn offset", seq)
 		case !okSrc || !okRegion:
-			c.Fail(id, construct, offs[0].Pos(), "offset takes SnapshotMarker ← %s, VbUUID ← %s (in checked region: %v); expected the observer's current snapshot and branch id read after the check", so, vo, okRegion)
+			c.Fail(id, construct, lit.Pos, "offset takes SnapshotMarker ← %s, VbUUID ← %s (in checked region: %v); expected the observer's current snapshot and branch id read after the check", so, vo, okRegion)
 		default:
-			c.OK(id, construct, send.Pos(), "IsInSnapshotMarker(%s) dominates the delivery; SnapshotMarker ← %s, VbUUID ← %s", w.Origin(seq), so, vo)
+			c.OK(id, construct, send.Pos(), "IsInSnapshotMarker(%s) dominates the delivery; SnapshotMarker ← %s, VbUUID ← %s", seq, so, vo)
 		}
 	}
 	if n < 10 {
